@@ -3,7 +3,7 @@
  1. TLC checks Honest on the layer algebra of Stack.tla (LayerMtu / Packets / Joined exactly as coded for
     fragswarm, mbapp, the five p2pmux kinds and p2pkeswarm) for every stack of the case space and every
     boundary size: the coded design is honest within the bounds.
- 2. TLC (StackGen) enumerates the stacks (depth <= 2, thorough 3; inner MTU in {64,100,576,1280,65536};
+ 2. TLC (StackGen) enumerates the stacks (depth <= 2, thorough 3; inner MTU in {64,100,576,1280,65536} plus {25,26} for single layers (thorough: two);
     mux channel ids of every header size) with BoundarySizes: 0, 1, MTU-1, MTU, MTU+1 and the sizes that
     straddle every layer's part-count and header boundary.
  3. harness/cmd/stackreplay builds both endpoints of every stack from the REAL layers over the real vswarm
@@ -28,8 +28,10 @@ MANIFEST = {
                 text="For every generated stack of fragswarm / mbapp / p2pmux (5 kinds) / p2pkeswarm layers over vswarm (thorough: also "
                      "over the harness transport), every inner MTU in {64,100,576,1280,65536} and the payload sizes 0, 1, MTU-1, MTU, "
                      "MTU+1 plus those straddling each layer's part-count and header boundaries, a real Tell (and Ask) is executed: "
-                     "size <= MTU() rejected with the MTU error, or delivered different from what was sent, or size > MTU() accepted "
-                     "or delivered in any form, is a VIOLATION.",
+                     "size <= MTU() rejected with the MTU error, or any payload / request / answer seen during the exchange that "
+                     "differs from (or is a proper part of) what was sent, or accepted but not delivered twice on the lossless "
+                     "harness transports while a control payload arrives, or size > MTU() accepted or delivered in any form, is "
+                     "a VIOLATION.",
                 note="Depth <= 2 (thorough: 3 for a reduced layer set), payloads <= 300 kB (thorough 5.3 MB, which reaches the 16-bit "
                      "part-count limit of mbapp for inner MTUs 64 and 100). udpswarm, quicswarm, sshswarm and multiswarm are not "
                      "exercised. A non-delivery of an accepted payload is DRIFT (C01), not a C09 violation. The decisive step is "
@@ -41,8 +43,10 @@ LAYER_NAME = {"frag": "fragswarm", "mbapp": "mbapp", "str": "stringmux", "var": 
               "u32": "uint32mux", "u64": "uint64mux", "p2pke": "p2pkeswarm"}
 
 TIERS = {
-    "quick": dict(mc="Stack_quick.cfg", gen=["StackGen_quick.cfg"], cap=300000, par=8),
-    "thorough": dict(mc="Stack_thorough.cfg", gen=["StackGen_thorough_d2.cfg", "StackGen_thorough_d3.cfg"], cap=5300000, par=10),
+    # StackGen_small*: base MTUs 25 / 26, where mbapp's 16-bit part count caps MTU() at 65535 / 131070 bytes
+    "quick": dict(mc="Stack_quick.cfg", gen=["StackGen_quick.cfg", "StackGen_small.cfg"], cap=300000, par=8),
+    "thorough": dict(mc="Stack_thorough.cfg", gen=["StackGen_thorough_d2.cfg", "StackGen_thorough_d3.cfg", "StackGen_small_d2.cfg"],
+                     cap=5300000, par=10),
 }
 
 
